@@ -17,6 +17,10 @@ var (
 // builtinPreLines is the number of fixed preamble lines NewScript emits.
 const builtinPreLines = 8
 
+// bseqSortDecl: the sort of abstract byte strings; heap keys of ghost maps may mention it before any
+// byte-string operation declares it, so Render hoists it.
+const bseqSortDecl = "(declare-sort BSeq 0)"
+
 // Term is an SMT-LIB2 term with its sort (both as text).
 type Term struct {
 	S    string
@@ -306,6 +310,9 @@ func (s *Script) Render(prefix int, goal Term, getValues []string) string {
 			sb.WriteByte('\n')
 			continue
 		}
+		if l == bseqSortDecl {
+			continue // emitted once, ahead of everything that may mention the sort
+		}
 		rest.WriteString(l)
 		rest.WriteByte('\n')
 	}
@@ -315,6 +322,9 @@ func (s *Script) Render(prefix int, goal Term, getValues []string) string {
 	}
 	// struct sorts mentioned anywhere, in dependency order
 	text := rest.String() + goal.S
+	if strings.Contains(text, "BSeq") {
+		sb.WriteString(bseqSortDecl + "\n")
+	}
 	structDeclMu.Lock()
 	names := make([]string, 0, len(structDecls))
 	for n := range structDecls {
